@@ -37,7 +37,10 @@ def generate(tier, seed):
 
 USER_GRIDS = [(0.0, 14.0, 0.1), (0.0, 14.0, 0.05), (0.0, 14.0, 0.2), (0.0, 14.0, 0.25), (0.0, 14.0, 0.5),
               (0.0, 14.0, 1.0), (0.0, 14.0, 0.01), (1.0, 13.0, 0.1), (2.0, 12.0, 0.1), (0.0, 7.0, 0.1),
-              (4.0, 10.0, 0.3), (0.0, 14.0, 0.7), (0.0, 12.0, 0.15), (6.0, 8.0, 0.02), (0.0, 14.0, 2.0)]
+              (4.0, 10.0, 0.3), (0.0, 14.0, 0.7), (0.0, 12.0, 0.15), (6.0, 8.0, 0.02), (0.0, 14.0, 2.0),
+              # grids whose points need a third decimal
+              (2.0, 9.0, 0.125), (6.0, 8.0, 0.025), (6.5, 7.5, 0.005), (0.125, 10.125, 0.5), (0.0, 14.0, 0.375),
+              (3.0, 4.0, 0.001), (0.005, 12.005, 0.25)]
 
 
 def setup(tier):
@@ -48,8 +51,8 @@ def setup(tier):
 
 
 def random_grid(rng):
-    step = rng.choice((0.01, 0.02, 0.05, 0.1, 0.1, 0.2, 0.25, 0.3, 0.5, 0.7, 1.0, 2.0))
-    mn = rng.choice((0.0, 0.0, 0.0, 1.0, 2.0, 4.0, 0.5))
+    step = rng.choice((0.01, 0.02, 0.05, 0.1, 0.1, 0.2, 0.25, 0.3, 0.5, 0.7, 1.0, 2.0, 0.125, 0.025, 0.375))
+    mn = rng.choice((0.0, 0.0, 0.0, 1.0, 2.0, 4.0, 0.5, 0.125, 1.005))
     nmax = int((16.0 - mn) / step)
     n = rng.randrange(3, max(4, min(141 if step >= 0.05 else 400, nmax)))
     return (mn, round(mn + n * step, 6), step)
@@ -183,28 +186,30 @@ def run_case(case, tier):
     lo, hi, ws = window
     printed = parsed["folding"]
     counts["window_rows"] = counts.get("window_rows", 0) + len(printed)
-    gridr = {round(v, 2) for v in want}
+    # a printed row shows its pH with two decimals (the program rounds the decimal value half-even,
+    # Python rounds the binary value): it denotes any grid point within 0.005 of the printed number
+    inwin = [v for v in want if lo - 1e-9 <= v <= hi + 1e-9]
     for ph, dg in printed:
-        if not (lo - 1e-9 <= ph <= hi + 1e-9) or round(ph, 2) not in gridr:
+        near = [v for v in inwin if abs(v - ph) <= 0.005 + 1e-9]
+        if not near:
             viol.append({"cls": "window-row-outside", "msg": "printed folding row pH %.2f is not a grid point inside window %r" % (ph, window)})
             break
-        m = ph / ws
-        if abs(m - round(m)) * ws > 0.05 + 1e-9:
+        if not any(abs(v / ws - round(v / ws)) * ws <= 0.05 + 1e-9 for v in near):
             viol.append({"cls": "window-row-off-step", "msg": "printed folding row pH %.2f is not within 0.05 of a multiple of the window step %r (grid %r)" % (ph, ws, grid)})
             break
-        api = bygrid.get(round(ph, 6))
-        if api is None:
-            near = [v for k, v in bygrid.items() if abs(k - ph) < 0.006]
-            api = near[0] if near else None
-        if api is not None and abs(api - dg) > 0.005 + 1e-9:
-            viol.append({"cls": "window-row-value", "msg": "printed dG %.2f at pH %.2f, profile has %.4f" % (dg, ph, api)})
+        apis = [bygrid[round(v, 6)] for v in near if round(v, 6) in bygrid]
+        if apis and not any(abs(api - dg) <= 0.005 + 1e-9 for api in apis):
+            viol.append({"cls": "window-row-value", "msg": "printed dG %.2f at pH %.2f, profile has %r" % (dg, ph, apis[:3])})
             break
-    pset = {round(p[0], 2) for p in printed}
+    pvals = sorted(p[0] for p in printed)
+    import bisect
     for v in want:
         m = v / ws
-        if lo - 1e-9 <= v <= hi + 1e-9 and abs(m - round(m)) < 1e-9 and round(v, 2) not in pset:
-            viol.append({"cls": "window-row-missing", "msg": "grid point pH %r is a multiple of the window step %r inside %r but not printed" % (v, ws, window)})
-            break
+        if lo - 1e-9 <= v <= hi + 1e-9 and abs(m - round(m)) < 1e-9:
+            i = bisect.bisect_left(pvals, v - 0.005 - 1e-9)
+            if not (i < len(pvals) and pvals[i] <= v + 0.005 + 1e-9):
+                viol.append({"cls": "window-row-missing", "msg": "grid point pH %r is a multiple of the window step %r inside %r but not printed" % (v, ws, window)})
+                break
     # printed optimum lines
     if opt[0] is not None:
         if parsed["opt"] is None or abs(parsed["opt"][0] - opt[0]) > 0.05 + 1e-9 or abs(parsed["opt"][1] - opt[1]) > 0.05 + 1e-9:
